@@ -491,6 +491,17 @@ theorem gen_info_facts :
 theorem gen_h5_parallel_ordered : IoReaders.h5ParallelMap = "imap" ∧ IoConsts.parallelMap = "imap" := by
   refine ⟨by decide, by decide⟩
 
+/-- **Every worker-pool call site of `navis/io/*.py`** (folder / list reads, zip archives, FTP, HDF5 – regenerated from
+the source, whatever the function is called) hands out its jobs with a method that returns results in submission
+order (`imap`, `map`, `starmap`); `imap_unordered`, `as_completed`, `apply_async`, … anywhere make this stop checking.
+The four batch loops this property talks about are among the sites (not vacuous). With `containers_agree` (ordered
+concatenation over any chunking = the serial loop) the order of a batch read does not depend on `parallel`. -/
+theorem every_pool_map_is_ordered :
+    (∀ s ∈ IoReaders.poolMapSites, s.2.2 ∈ ["imap", "map", "starmap"]) ∧
+    (∀ f ∈ [("base", "parallel_read"), ("base", "parallel_read_archive"), ("base", "parallel_read_ftp"), ("hdf_io", "read_h5")],
+      ∃ s ∈ IoReaders.poolMapSites, (s.1, s.2.1) = f) := by
+  refine ⟨by decide, by decide⟩
+
 /-! ### NRRD: the header describes the neuron as it is *now* -/
 
 /-- **Multi-step histories.** `_write_nrrd` (executed statement by statement from the operation list the translator
@@ -517,6 +528,97 @@ example :
     readGeo (runOps [.empty, .set "space directions" .diagUnits false, .set "space units" .unitNames false, .updateOld]
       ⟨(4, 4, 40), "nanometer", 0, false⟩ [("space directions", .diag (8, 8, 8)), ("space units", .strs ["nanometer", "nanometer", "nanometer"])] [])
       = ((8, 8, 8), some ("nanometer", "nanometer", "nanometer")) := by decide
+
+/-! ### VoxelNeuron: the grid `write_nrrd` exports is the neuron's current content -/
+
+/-- One step keeps the cache invariant, provided every field the grid depends on is hashed or cleared by hand. -/
+theorem voxel_step_keeps_invariant (f : VoxFacts) (hs : f.safe = true) (s : VoxSt) (op : VoxOp) (h : VoxInv f s) :
+    VoxInv f (voxStep f s op) := by
+  simp only [VoxFacts.safe, Bool.and_eq_true, Bool.or_eq_true] at hs
+  obtain ⟨⟨hD, hV⟩, hT⟩ := hs
+  cases op with
+  | setData n =>
+    intro g hg
+    simp only [voxStep] at hg ⊢
+    cases hc : f.clearsD
+    · have hh : f.hashedD = true := by rcases hD with h | h <;> simp_all
+      simp only [hc, Bool.false_and, Bool.false_eq_true, if_false] at hg
+      have := h g hg
+      simpa [hh] using this
+    · simp [hc, hT] at hg
+  | setValues n =>
+    intro g hg
+    simp only [voxStep] at hg ⊢
+    cases hc : f.clearsV
+    · have hh : f.hashedV = true := by rcases hV with h | h <;> simp_all
+      simp only [hc, Bool.false_and, Bool.false_eq_true, if_false] at hg
+      have := h g hg
+      simpa [hh] using this
+    · simp [hc, hT] at hg
+  | read =>
+    have hv := voxInv_validate f s hT h
+    have hst := voxValidate_stamps f s
+    simp only [voxStep, voxRead]
+    cases hc : (voxValidate f s).cache with
+    | some g => simpa [hc] using hv
+    | none =>
+      intro g hg
+      simp only [Option.some.injEq] at hg
+      subst hg
+      refine ⟨?_, ?_⟩
+      · cases hh : f.hashedD
+        · simp
+        · simpa [hh] using hst.1 hh
+      · cases hh : f.hashedV
+        · simp
+        · simpa [hh] using hst.2.1 hh
+
+/-- **No stale grid, after any history.** For every sequence of assignments (`voxels`, `grid`, `values`, `threshold`,
+`strip`, …) and reads starting from a fresh neuron, the grid a read returns – what `_write_nrrd` puts into the file –
+is built from the *current* voxel coordinates and the *current* per-voxel values. -/
+theorem voxel_grid_never_stale (f : VoxFacts) (hs : f.safe = true) (d v : Nat) (ops : List VoxOp) :
+    let s := voxRun f ⟨d, v, d, v, none⟩ ops
+    (voxRead f s).1 = (s.d, s.v) := by
+  have hinv : ∀ (ops : List VoxOp) (s : VoxSt), VoxInv f s → VoxInv f (voxRun f s ops) := by
+    intro ops
+    induction ops with
+    | nil => intro s h; exact h
+    | cons o os ih => intro s h; exact ih _ (voxel_step_keeps_invariant f hs s o h)
+  have h0 : VoxInv f ⟨d, v, d, v, none⟩ := by intro g hg; simp at hg
+  have hfin := hinv ops _ h0
+  simp only
+  generalize voxRun f ⟨d, v, d, v, none⟩ ops = s at hfin
+  simp only [VoxFacts.safe, Bool.and_eq_true] at hs
+  have hv := voxInv_validate f s hs.2 hfin
+  have hst := voxValidate_stamps f s
+  simp only [voxRead]
+  cases hc : (voxValidate f s).cache with
+  | none => simp [hst.2.2.1, hst.2.2.2]
+  | some g =>
+    have := hv g hc
+    simp only
+    rw [← hst.2.2.1, ← hst.2.2.2]
+    apply Prod.ext
+    · cases hh : f.hashedD
+      · simpa [hh] using this.1
+      · have h1 := this.1; simp only [hh, if_true] at h1; rw [← h1]; exact hst.1 hh
+    · cases hh : f.hashedV
+      · simpa [hh] using this.2
+      · have h2 := this.2; simp only [hh, if_true] at h2; rw [← h2]; exact hst.2.1 hh
+
+/-- **The current source is safe**: with `CORE_DATA`, `TEMP_ATTR` and every method of `VoxelNeuron` that assigns `_data`
+or `_values` regenerated from `navis/core/voxel.py`, each field the grid depends on is hashed (`_data`) or cleared by
+every method assigning it (`_values`), and `_grid` is among the attributes a clear removes. Dropping the
+`_clear_temp_attr()` of the `values` setter makes this false. -/
+theorem gen_voxel_cache_safe :
+    IoReaders.voxFacts.safe = true ∧ IoReaders.voxFacts.hashedD = true ∧ IoReaders.voxFacts.hashedV = false ∧
+    (∃ a ∈ IoReaders.voxAssigns, a.name = "values.setter" ∧ a.fields = ["_values"]) := by
+  refine ⟨by decide, by decide, by decide, by decide⟩
+
+/-- What the theorem excludes (facts of seed C14_4: the `values` setter does not clear): build the grid, assign new
+values, read again – the read returns the grid of the OLD values. -/
+example : (voxRead ⟨true, false, true, false, true⟩
+    (voxRun ⟨true, false, true, false, true⟩ ⟨1, 1, 1, 1, none⟩ [.read, .setValues 2])).1 = (1, 1) := by decide
 
 /-! ### vertex attributes with several components -/
 
